@@ -40,6 +40,7 @@ type world struct {
 	// namespaces; 2 = also by several ServiceEntries of one namespace. Violations are tagged with the
 	// collision classes present (known findings are keyed on them).
 	collide int
+	hot     string // the run's "hot" host: generators pick it half of the time so that several objects meet on one host
 	worst   int // worst collision class that ever existed during the history (0 unique, 1 duphost, 2 dupns)
 	exists  map[string]config.Config
 	kinds  []string // enabled kinds for this run
@@ -62,6 +63,7 @@ func newWorld(tp *engine.Tape, kinds []string) *world {
 	default:
 		wd.collide = 2
 	}
+	wd.hot = wlHosts[tp.Choose(3, "hotHost")]
 	if kinds == nil {
 		// swarm: ServiceEntry always, a random subset of the rest
 		wd.kinds = []string{"ServiceEntry"}
@@ -88,6 +90,14 @@ func pickNS(tp *engine.Tape, opts ...string) string {
 }
 
 func pickHost(tp *engine.Tape) string { return wlHosts[tp.Choose(len(wlHosts), "host")] }
+
+// pickHostHot prefers the run's hot host.
+func (wd *world) pickHostHot(tp *engine.Tape) string {
+	if wd.hot != "" && tp.Bool(1, 2, "useHot") {
+		return wd.hot
+	}
+	return pickHost(tp)
+}
 
 func pickExportTo(tp *engine.Tape) []string {
 	switch tp.Choose(6, "exportTo") {
@@ -169,7 +179,7 @@ func (wd *world) genSpec(tp *engine.Tape, kind, ns, name string) config.Spec {
 	switch kind {
 	case "ServiceEntry":
 		se := &networking.ServiceEntry{}
-		h := pickHost(tp)
+		h := wd.pickHostHot(tp)
 		if !wd.hostAllowed(h, ns, name) {
 			h = name + ".uniq.example.com"
 		}
@@ -243,7 +253,7 @@ func (wd *world) genSpec(tp *engine.Tape, kind, ns, name string) config.Spec {
 		se.ExportTo = pickExportTo(tp)
 		return se
 	case "DestinationRule":
-		dr := &networking.DestinationRule{Host: pickHost(tp), ExportTo: pickExportTo(tp)}
+		dr := &networking.DestinationRule{Host: wd.pickHostHot(tp), ExportTo: pickExportTo(tp)}
 		switch tp.Choose(4, "subsets") {
 		case 1:
 			dr.Subsets = []*networking.Subset{{Name: "v1", Labels: map[string]string{"version": "v1"}}}
@@ -281,7 +291,7 @@ func (wd *world) genSpec(tp *engine.Tape, kind, ns, name string) config.Spec {
 		}
 		return dr
 	case "VirtualService":
-		vs := &networking.VirtualService{Hosts: []string{pickHost(tp)}, ExportTo: pickExportTo(tp)}
+		vs := &networking.VirtualService{Hosts: []string{wd.pickHostHot(tp)}, ExportTo: pickExportTo(tp)}
 		switch tp.Choose(4, "gateways") {
 		case 1:
 			vs.Gateways = []string{"mesh"}
